@@ -16,6 +16,8 @@ enum Op {
     Delete(Option<Range>),
     /// a bare DELETE in front of `:` or `ELSE`: rejected, nothing runs, nothing changes
     Rejected,
+    /// several LIST / DELETE statements on one direct line, executed left to right
+    Seq(Vec<Op>),
 }
 
 const REJECTED_FORMS: &[&str] = &["DELETE:LIST", "DELETE :PRINT 1", "IF 1 THEN DELETE ELSE PRINT 1", "DELETE:DELETE 0-", "DELETE:NEW", "IF 0 THEN PRINT 1 ELSE DELETE:PRINT 2"];
@@ -54,6 +56,9 @@ fn parse_range(s: &str) -> Option<Range> {
 fn parse_op(line: &str) -> Op {
     if REJECTED_FORMS.contains(&line) {
         return Op::Rejected;
+    }
+    if line.contains(':') && (line.starts_with("LIST") || line.starts_with("DELETE")) {
+        return Op::Seq(line.split(':').map(parse_op).collect());
     }
     if let Some(r) = line.strip_prefix("LIST") {
         return Op::List(parse_range(r));
@@ -114,6 +119,28 @@ fn check_history(lines: &[String], full_check_numbers: &[u32]) -> Result<bool, (
                 } else if errs_of(&evs) == 0 {
                     return Err(("number-above-65529-not-rejected".into(), format!("{}: no error shown: {:?}", where_, flat(&evs))));
                 }
+            }
+            Op::Seq(parts) => {
+                // well-formed parts only (generated that way): the listings come in order, the
+                // deletions take effect in between
+                let mut want: Vec<String> = vec![];
+                for p in &parts {
+                    match p {
+                        Op::List(Some(r)) => want.extend(model.range(r.from..=r.to).map(|(k, v)| format!("{} {}", k, v))),
+                        Op::Delete(Some(r)) if !r.bare => {
+                            let keys: Vec<u32> = model.range(r.from..=r.to).map(|(k, _)| *k).collect();
+                            for k in keys {
+                                model.remove(&k);
+                            }
+                        }
+                        _ => return Err(("harness".into(), format!("{}: unsupported part in a compound line", where_))),
+                    }
+                }
+                let got = listed(&evs);
+                if got != want || errs_of(&evs) != 0 {
+                    return Err(("list-range".into(), format!("{}: listed {:?}, the statements executed left to right give {:?}; full output {:?}", where_, got, want, flat(&evs))));
+                }
+                nontrivial = true;
             }
             Op::Rejected => {
                 if errs_of(&evs) == 0 || !listed(&evs).is_empty() || evs.len() != 1 {
@@ -196,6 +223,13 @@ fn ops_over(universe: &[u32]) -> Vec<String> {
         v.push(format!("{} PRINT 1", k));
         v.push(format!("{} REM é", k));
         v.push(format!("{}", k));
+    }
+    // compound direct lines: every statement of the line runs
+    if let (Some(a), Some(b)) = (universe.first(), universe.last()) {
+        // (DELETE returns to the prompt, so it only stands last: what follows it is not documented)
+        v.push(format!("LIST {}:LIST {}", a, b));
+        v.push(format!("LIST {}:DELETE {}", b, a));
+        v.push(format!("LIST -{}:LIST {}-:DELETE {}-{}", a, b, a, b));
     }
     for cmd in ["LIST", "DELETE"] {
         v.push(cmd.to_string());
